@@ -2,6 +2,10 @@ import Driver.FlowFam
 import Driver.BatchFam
 import Driver.BindFam
 import Driver.PoolFam
+import Driver.ValueFam
+import Driver.StoreFam
+import Driver.ConfigFam
+import Driver.WaitFam
 /-!
 # `flytdriver`: one JSON line in (`{"fam":…,"sc":…,"obs":…}`), one JSON verdict line out.
 The scenario is run through the Lean model; the property predicates (`Spec.*`) are evaluated on
@@ -20,6 +24,11 @@ def handleLine (line : String) : Json :=
       | "gbatch" => Driver.BatchFam.handle sc obs
       | "bind" => Driver.BindFam.handle sc obs
       | "pool" => Driver.PoolFam.handle sc obs
+      | "value" => Driver.ValueFam.handle sc obs
+      | "store" => Driver.StoreFam.handle sc obs
+      | "storehist" => Driver.StoreFam.handleHist sc obs
+      | "config" => Driver.ConfigFam.handle sc obs
+      | "wait" => Driver.WaitFam.handle sc obs
       | f => Json.mkObj [("badop", Json.str s!"unknown family {f}")]
     | _, _, _ => Json.mkObj [("badop", Json.str "missing fam/sc/obs")]
 
